@@ -2399,7 +2399,7 @@ class StridedInterval:
         if msb == [0]:
             # All positive numbers
             return self.zero_extend(new_length)
-        if msb == [1]:
+        if msb == [1] and self.lower_bound <= self.upper_bound:
             # All negative numbers
             si = self.copy()
             si._bits = new_length
